@@ -1261,7 +1261,6 @@ pub fn run_c11(tier: Tier) -> i32 {
             ("hold-inter/<=3calls", ChainH { max_calls: 3, cuts: Cuts::FreeInter, hold: true, sizes: vec![20, 300], pend: false, max_cont: 1, pad: false }, 1),
             ("hold-inter/<=2calls/4-sizes", ChainH { max_calls: 2, cuts: Cuts::FreeInter, hold: true, sizes: vec![20, 200, 300, 600], pend: false, max_cont: 1, pad: true }, 1),
             ("hold-dev/<=3calls", ChainH { max_calls: 3, cuts: Cuts::Dev, hold: true, sizes: vec![20, 300], pend: false, max_cont: 1, pad: true }, 2),
-            ("hold-dev1/<=4calls", ChainH { max_calls: 4, cuts: Cuts::Dev, hold: true, sizes: vec![20, 300], pend: true, max_cont: 2, pad: true }, 1),
             ("hold-dev/<=3calls/110-byte-replies", ChainH { max_calls: 3, cuts: Cuts::Dev, hold: true, sizes: vec![64, 70], pend: false, max_cont: 2, pad: false }, 2),
         ],
     };
